@@ -40,9 +40,9 @@ func config(name string) pmc.Cfg {
 		fmt.Sscanf(name[i+2:], "%d", &c.MaxView)
 		base := config(name[:i])
 		base.Name, base.MaxView = name, c.MaxView
-		base.Eager = strings.HasSuffix(name, "e") // "K2@v0e": eager adversary (no lazy-delivery reduction)
+		base.Eager = strings.HasSuffix(name, "e")  // "K2@v0e": eager adversary (no lazy-delivery reduction)
 		base.Sloppy = strings.HasSuffix(name, "s") // "K1@v1s": consumer validators accept a missing block
-		if strings.HasSuffix(name, "a") { // "K2@v1a": one-block alphabet (no equivocation; the adversary's freedom is elsewhere)
+		if strings.HasSuffix(name, "a") {          // "K2@v1a": one-block alphabet (no equivocation; the adversary's freedom is elsewhere)
 			base.Alphabet = []string{"A"}
 		}
 		if strings.HasSuffix(name, "z") { // "K1@v1z": every correct consumer rejects block Z (external validity, C04)
@@ -115,9 +115,9 @@ var menus = map[string]string{
 	"MZ":   "PC PP0 NV NVM NVB VC",
 	"MNC":  "PC PP0 NC", // + the adversary's own messages signed over a non-canonical encoding of the header
 	"ME":   "NVE",
-	"MB":   "PC NVB", // NEW_VIEWs of a Byzantine leader, genuine in every signed part, with and without a substituted block body
+	"MB":   "PC NVB",           // NEW_VIEWs of a Byzantine leader, genuine in every signed part, with and without a substituted block body
 	"MZE":  "PC PP0 NV NVE VC", // + NEW_VIEW / vote locked on an empty-hash proof forged from proof-less VIEW_CHANGE signatures
-	"M5":   "PC PPV", // only used to (re)generate the witness of the recorded stand-alone-PREPREPARE finding
+	"M5":   "PC PPV",           // only used to (re)generate the witness of the recorded stand-alone-PREPREPARE finding
 }
 
 func plan(prop, tier string) []run {
@@ -201,14 +201,14 @@ func plan(prop, tier string) []run {
 		mul = 4
 	}
 	{
-		add("K1", "M1", 0, mul*25*time.Second)      // exhaustive (~4e5 states)
-		add("K2@v0e", "M2", 0, mul*15*time.Second)  // equivocating proposer, eager adversary, no timeouts: exhaustive
-		add("K3b@v0e", "M2", 0, mul*15*time.Second) // weighted, two Byzantine members: exhaustive
-		add("K1@v1e", "M1", 0, mul*15*time.Second)  // eager PREPARE/COMMIT, one view change: exhaustive
-		add("K3~d", "M1", 0, mul*10*time.Second)    // weighted committee, descending storage order
-		add("K1L@v1", "M1", 0, mul*10*time.Second)  // long member ids with a common prefix
-		add("K1@v1", "M1", -1, mul*10*time.Second)  // L2: every single-delivery order (no flush macro), one view change
-		add("K2@v0e", "M2", -1, mul*15*time.Second) // L2 under an equivocating proposer
+		add("K1", "M1", 0, mul*25*time.Second)       // exhaustive (~4e5 states)
+		add("K2@v0e", "M2", 0, mul*15*time.Second)   // equivocating proposer, eager adversary, no timeouts: exhaustive
+		add("K3b@v0e", "M2", 0, mul*15*time.Second)  // weighted, two Byzantine members: exhaustive
+		add("K1@v1e", "M1", 0, mul*15*time.Second)   // eager PREPARE/COMMIT, one view change: exhaustive
+		add("K3~d", "M1", 0, mul*10*time.Second)     // weighted committee, descending storage order
+		add("K1L@v1", "M1", 0, mul*10*time.Second)   // long member ids with a common prefix
+		add("K1@v1", "M1", -1, mul*10*time.Second)   // L2: every single-delivery order (no flush macro), one view change
+		add("K2@v0e", "M2", -1, mul*15*time.Second)  // L2 under an equivocating proposer
 		add("K2^2@v0e", "M2", 0, mul*15*time.Second) // two heights, equivocating proposer at both: exhaustive
 		add("K1^2@v1", "M1", 0, mul*15*time.Second)  // two heights with a view change: exhaustive
 		add("K2", "M2", 0, mul*12*time.Second)
@@ -220,9 +220,9 @@ func plan(prop, tier string) []run {
 		add("K6", "M7", 0, mul*10*time.Second)
 		add("K3b@v4a", "M1", 0, mul*20*time.Second) // two correct members of weights 3,4 (both needed), views up to 4: exhaustive (~2.6e5 states)
 		add("K3b@v2", "M3", 0, mul*10*time.Second)  // every vote variant of two Byzantine members for the correct leader of view 2: exhaustive
-		add("K1@v1a", "MNC", 0, mul*10*time.Second)  // the adversary's own messages signed over non-canonical header encodings: exhaustive
-		add("K3b@v1", "MNC", 0, mul*10*time.Second)  // the same with two Byzantine members, weighted: exhaustive
-		add("K2@v1a", "MNC", 0, mul*25*time.Second)  // the same from the proposer of view 0 (PREPREPARE, votes to the correct leader of view 1): exhaustive
+		add("K1@v1a", "MNC", 0, mul*10*time.Second) // the adversary's own messages signed over non-canonical header encodings: exhaustive
+		add("K3b@v1", "MNC", 0, mul*10*time.Second) // the same with two Byzantine members, weighted: exhaustive
+		add("K2@v1a", "MNC", 0, mul*25*time.Second) // the same from the proposer of view 0 (PREPREPARE, votes to the correct leader of view 1): exhaustive
 		add("K1@v1a", "MB", 0, mul*25*time.Second)  // Byzantine leader of view 1 substitutes the (unsigned) block body of its NEW_VIEW: exhaustive
 		add("K3b@v4a", "ME", 0, mul*20*time.Second) // two Byzantine leaders, views up to 4: NEW_VIEW / vote locked on an empty-hash proof forged from VIEW_CHANGE signatures: exhaustive
 	}
@@ -447,6 +447,36 @@ func main() {
 			}
 		}
 	}
+	// liveness from a height entered by node sync (C05)
+	if *prop == "C05" || *prop == "ALL" {
+		type sc struct {
+			name           string
+			c              kit.Committee
+			silent, synced []int
+		}
+		cases := []sc{
+			{"K1", kit.EqualCommittee(4), []int{3}, []int{0, 1, 2}}, {"K1", kit.EqualCommittee(4), []int{1}, []int{0, 2, 3}}, {"K1", kit.EqualCommittee(4), []int{0}, []int{1, 2, 3}},
+			{"K1", kit.EqualCommittee(4), nil, []int{0, 1, 2, 3}}, {"K1", kit.EqualCommittee(4), nil, []int{0}}, {"K1", kit.EqualCommittee(4), nil, []int{1}}, {"K1", kit.EqualCommittee(4), nil, []int{2, 3}},
+			{"K3", kit.WeightedCommittee(1, 2, 3, 4), []int{2}, []int{0, 1, 3}}, {"K3", kit.WeightedCommittee(1, 2, 3, 4), []int{0, 1}, []int{2, 3}}, {"K3", kit.WeightedCommittee(1, 2, 3, 4), nil, []int{0}},
+			{"K4", kit.EqualCommittee(5), []int{4}, []int{0, 1, 2, 3}}, {"K8", kit.WeightedCommittee(1, 7, 1, 1), []int{0, 2, 3}, []int{1}},
+		}
+		var sl []interface{}
+		for _, k := range cases {
+			r := pmc.LiveAfterSync(k.name, k.c, k.silent, k.synced)
+			liveExt++
+			trans += r.Steps
+			sl = append(sl, map[string]interface{}{"config": k.name, "silent": k.silent, "enter_height_2_by_sync": k.synced, "committed_height_2": r.OK, "real_steps": r.Steps})
+			if !r.OK {
+				path := ev.ReplayPath(*prop, fmt.Sprintf("%s-synclive-%v-%v", k.name, k.silent, k.synced))
+				v := pmc.Violation{Prop: "C05", Clause: "no-commit-after-sync", Detail: fmt.Sprintf("committee %s, silent %v, members %v entered height 2 by sync, all later messages timely: %s", k.name, k.silent, k.synced, r.Why)}
+				pmc.WriteReplay(path, pmc.ReplayFile{Property: "C05", Config: k.name, Violation: v, Engine: "pmc", SyncLive: &pmc.SyncLiveSpec{Silent: k.silent, Synced: k.synced}})
+				violations++
+				printed = append(printed, fmt.Sprintf("VIOLATION property=%s replay=%s", *prop, path))
+				fmt.Fprintf(os.Stderr, "  %s\n", v.Detail)
+			}
+		}
+		runs = append(runs, map[string]interface{}{"liveness_after_sync": sl})
+	}
 	// two-height future-cache paths (C03, C08, C13, C17): small exhaustive enumeration on one real node
 	if *prop == "C03" || *prop == "C08" || *prop == "C13" || *prop == "C17" || *prop == "ALL" {
 		for _, cname := range []string{"K1", "K3"} {
@@ -539,6 +569,22 @@ func doReplay(path string, print bool) int {
 				}
 				return 1
 			}
+		}
+		return 0
+	}
+	if rf.SyncLive != nil {
+		r := pmc.LiveAfterSync(rf.Config, cfg.C, rf.SyncLive.Silent, rf.SyncLive.Synced)
+		if print {
+			for _, l := range r.Log {
+				fmt.Println(l)
+			}
+			fmt.Println("result:", r.OK, r.Why)
+			if !r.OK {
+				fmt.Printf("VIOLATION property=%s replay=%s\n", rf.Property, path)
+			}
+		}
+		if !r.OK {
+			return 1
 		}
 		return 0
 	}
